@@ -98,6 +98,11 @@ def py_specs() -> list[Spec]:
             "Except String TS", mode="bool", kind="except",
             subst={**SELF_SUBST, **init_subst}, variants={"_nsec is None": True}, calls=CALLS,
             rename={"end": "end_"},
+            # Python: comparing the EMPTY enum member with an astropy Time raises TypeError
+            raising_tests={
+                "begin is not None and begin < converter.epoch": ("begin.isEmptyTag", "TypeError"),
+                "end is not None and end > converter.max_time": ("end_.isEmptyTag", "TypeError"),
+            },
         ),
         S("Timespan.isEmpty", "isEmpty", [("self", "TS")], "Bool"),
         S("Timespan.__lt__", "ltT", [("self", "TS"), ("other", "Int")], "Bool", T_TIME),
